@@ -1,6 +1,6 @@
 (* C10 -- property theorems only.  Proofs live in C10/Proofs1.v, Proofs2.v. *)
 From Coq Require Import NArith List Permutation.
-From DV Require Import Base.Outcome C10.Gen C10.Model C10.Proofs1 C10.Proofs2 C10.Proofs3 C10.Proofs4.
+From DV Require Import Base.Outcome C10.Gen C10.Model C10.Proofs1 C10.Proofs2 C10.Proofs3 C10.Proofs4 C10.Proofs5 C10.Proofs6 C10.Proofs7.
 Import ListNotations.
 Local Open Scope N_scope.
 
@@ -210,3 +210,72 @@ Theorem C10_unchained_rejected : forall snew ds1 d ds2 old,
      u_fin st = false /\ In (u_visible st) (scan ds1 old)).
 Proof. exact unchained_rejected. Qed.
 Print Assumptions C10_unchained_rejected.
+
+(* sender o receiver = identity on zones *)
+Theorem C10_transfer_identity_axfr : forall v size limit hard rs chunks z0,
+  sender_axfr (zone_of v) = Some rs ->
+  batch size limit hard rs = Ok chunks ->
+  exists us st, run None (sender_msgs 252 chunks) = (us, SDone) /\
+    c10_apply z0 us = Ok st /\ u_fin st = true /\
+    Permutation (u_visible st) (zone_of v).
+Proof. exact (transfer_identity_axfr updater_checks_batch_soa). Qed.
+Print Assumptions C10_transfer_identity_axfr.
+
+Theorem C10_transfer_identity_ixfr : forall v vs size limit chunks,
+  vs <> [] ->
+  ~ In (fst (last (v :: vs) (0, []))) (map fst (removelast (v :: vs))) ->
+  (forall r1 r2, size r1 + size r2 <= limit) ->
+  forall compat, batch size limit (sender_hard compat 251) (sender_ixfr (v :: vs)) = Ok chunks ->
+  exists us st, run None (sender_msgs 251 chunks) = (us, SDone) /\
+    c10_apply (zone_of v) us = Ok st /\ u_fin st = true /\
+    zeq (u_visible st) (zone_of (last (v :: vs) (0, []))).
+Proof.
+  intros v vs size limit chunks H1 H2 H3 compat.
+  replace (sender_hard compat 251) with (@None N) by (destruct compat; reflexivity).
+  exact (transfer_identity_ixfr updater_checks_batch_soa v vs size limit chunks H1 H2 H3).
+Qed.
+Print Assumptions C10_transfer_identity_ixfr.
+
+Theorem C10_batch_is_a_split : forall size limit hard rs chunks,
+  batch size limit hard rs = Ok chunks ->
+  concat chunks = rs /\ Forall (fun c => c <> []) chunks.
+Proof. exact batch_spec. Qed.
+Print Assumptions C10_batch_is_a_split.
+
+Theorem C10_rr_count_no_overflow : forall ty s rs p' us e,
+  flat (proc_new ty s) rs = (p', us, e) ->
+  N.of_nat (length rs) < 18446744073709551616 -> p_count p' < 18446744073709551616.
+Proof. exact rr_count_no_overflow. Qed.
+Print Assumptions C10_rr_count_no_overflow.
+
+(* the diff reported on commit applies for every batch outside the three known
+   defect classes *)
+Theorem C10_good_history_diff_applies : forall pub ops rem add,
+  good_history pub ops = true ->
+  last (c10_diff pub ops) None = Some (rem, add) ->
+  forall k, same_rrset (applied_at k pub rem add) (s_get k (content_after pub ops)).
+Proof. exact good_history_diff_applies. Qed.
+Print Assumptions C10_good_history_diff_applies.
+
+(* the stream client (check_stream) closes the stream exactly at the last
+   message of a valid AXFR / AXFR-style transfer, where the interpreter is Done *)
+Theorem C10_client_agrees_axfr : forall q s ks ms cs,
+  (q = 252 \/ (q = 251 /\ ks <> [])) ->
+  packs q ms cs -> concat cs = axfr_seq s ks -> ~ lone_soa_first (if q =? 252 then Axfr else Ixfr) cs ->
+  client_stream (client_init q) ms = (repeat true (length ms), true).
+Proof. exact client_agrees_axfr. Qed.
+Print Assumptions C10_client_agrees_axfr.
+
+Theorem C10_client_agrees_ixfr_one_message : forall snew ds m,
+  (forall d, In d ds -> soa_serial (d_old d) <> soa_serial snew) ->
+  carries true m (ixfr_seq snew ds) -> h_qtype (m_hdr m) = Some 251 ->
+  client_stream (client_init 251) [m] = ([true], true).
+Proof. exact client_agrees_ixfr_one_message. Qed.
+Print Assumptions C10_client_agrees_ixfr_one_message.
+
+Theorem C10_client_agrees_single_soa : forall m s,
+  carries true m [Soa s] -> h_qtype (m_hdr m) = Some 251 ->
+  client_stream (client_init 251) [m] = ([true], true) /\
+  run None [m] = ([], SErr E_SingleSoa).
+Proof. exact client_agrees_single_soa. Qed.
+Print Assumptions C10_client_agrees_single_soa.
